@@ -250,7 +250,13 @@ struct Ev
   vector<std::pair<string, vector<int>>> ivecs;
   vector<std::pair<string, vector<double>>> rvecs; // -> vector of ranks
   vector<std::pair<vector<int>, double>> pts; // Evals
-  explicit Ev(const string& n) : e(n), ints(), reals(), strs(), bools(), ivecs(), rvecs(), pts() {}
+  vector<std::pair<string, string>> raws; // ready-made JSON
+  explicit Ev(const string& n) : e(n), ints(), reals(), strs(), bools(), ivecs(), rvecs(), pts(), raws() {}
+  Ev& raw(const string& k, const string& v)
+  {
+    raws.emplace_back(k, v);
+    return *this;
+  }
   Ev& i(const string& k, long v)
   {
     ints.emplace_back(k, v);
@@ -370,6 +376,7 @@ public:
       for (const auto& kv : e.bools) o.kv(kv.first, kv.second);
       for (const auto& kv : e.reals) o.kv(kv.first, rank(kv.second));
       for (const auto& kv : e.ivecs) o.kv(kv.first, arrOf(kv.second));
+      for (const auto& kv : e.raws) o.kv(kv.first, J::raw(kv.second));
       for (const auto& kv : e.rvecs)
       {
         Arr a;
@@ -613,8 +620,15 @@ public:
     // budget: mostly ample, sometimes binding
     static const long budgets[] = {1, 2, 3, 4, 5, 7, 10, 20, 50, 200};
     long maxEval = g.chance(1, 4) ? budgets[g.below(10)] : 20000;
+    // the line search is normally given thousands of evaluations; its budget-exhaustion path needs tiny ones
+    if (opt == "NewtonBacktrack" && g.coin()) maxEval = budgets[g.below(5)];
     int hist = static_cast<int>(g.below(10)); // history shape
     bool early = g.chance(1, 5);
+    bool multi = !(oneD || opt == "NewtonBacktrack" || opt == "Meta");
+    // block-wise use of one optimiser object: init() on sub-lists of the parameters (same size / other names, other size, back)
+    bool blocks = (hist == 6 && multi && n >= 2);
+    // same names, other constraints: the box is replaced between two runs of the same optimiser object
+    bool rebox = (hist == 7 && !(opt == "NewtonBacktrack" || opt == "Brent" || opt == "GoldenSection"));
 
     string cfg;
     f->sink = &sc.sink;
@@ -626,6 +640,11 @@ public:
     if (fat >= 4 && fat < 7) sit = f->m;
     else if (fat >= 7)
       for (size_t i = 0; i < n; ++i) sit[i] = f->m[i] + (g.unit() * 2. - 1.) * 5.;
+    if (blocks)
+    { // only some coordinates are handed to the optimiser: the others must be where the run is meant to start
+      fat = 0;
+      sit = start;
+    }
     f->place(sit);
 
     bpp::ParameterList pl;
@@ -746,7 +765,7 @@ public:
     {
       Obj o;
       o.kv("e", "Reset").kv("opt", opt).kv("dim", n).kv("kind", KINDS[kind]);
-      o.kv("pol", pol).kv("max", maxEval).kv("tk", tk).kv("inact", inactive).kv("sc", id).kv("cfg", cfg).kv("hist", hist).kv("kap", static_cast<long>(f->kappa + 0.5)).kv("fat", fat < 4 ? "start" : fat < 7 ? "min" : "else");
+      o.kv("pol", pol).kv("max", maxEval).kv("tk", tk).kv("inact", inactive).kv("sc", id).kv("cfg", cfg).kv("hist", hist).kv("kap", static_cast<long>(f->kappa + 0.5)).kv("fat", fat < 4 ? "start" : fat < 7 ? "min" : "else").kv("full", !blocks);
       Arr b;
       for (size_t i = 0; i < n; ++i) b.add(Arr().add(bx.has[i] != 0).add(bx.il[i] != 0).add(bx.iu[i] != 0));
       o.kv("box", b);
@@ -764,6 +783,9 @@ public:
       ipl.reset();
       ipl.addParameter(bpp::Parameter("x", 0.0));
     }
+    vector<size_t> act(n); // indices of the parameters given to the last init()
+    for (size_t i = 0; i < n; ++i) act[i] = i;
+    vector<double> base = start;
     auto reported = [&]() -> vector<double> {
       vector<double> x(n);
       if (opt == "NewtonBacktrack")
@@ -786,7 +808,8 @@ public:
         f->record = rec;
         return x;
       }
-      for (size_t i = 0; i < n; ++i) x[i] = o->getParameters()[i].getValue();
+      x = base; // coordinates that are not being optimised stay where they were at init()
+      for (size_t k = 0; k < act.size(); ++k) x[act[k]] = o->getParameters()[k].getValue();
       return x;
     };
 
@@ -814,9 +837,16 @@ public:
     }
     auto doInit = [&](const vector<double>& from) {
       if (dead) return false;
-      bpp::ParameterList q = ipl;
-      if (opt != "NewtonBacktrack")
-        for (size_t i = 0; i < n; ++i) q[i].setValue(from[i]);
+      bpp::ParameterList q;
+      if (opt == "NewtonBacktrack") q = ipl;
+      else
+        for (size_t k = 0; k < act.size(); ++k)
+        {
+          bpp::Parameter pk = pl[act[k]];
+          pk.setValue(from[act[k]]);
+          q.addParameter(pk);
+        }
+      base = from;
       // the objective stays wherever the history left it
       sc.add(Ev("InitBegin").r("f0", f->evalAt(from)).iv("sf", bx.codes(from)));
       string r = guarded([&]() { o->init(q); });
@@ -897,6 +927,40 @@ public:
     };
 
     // ---- the history
+    if (blocks)
+    {
+      // first half, second half (same size, other names), a sub-list of another size, the first half again;
+      // each run starts where the previous one left the objective's coordinates
+      size_t k = std::max<size_t>(1, n / 2);
+      vector<vector<size_t>> sets(4);
+      for (size_t i = 0; i < k; ++i) sets[0].push_back(i);
+      for (size_t i = n - k; i < n; ++i) sets[1].push_back(i);
+      size_t k3 = (k == 1) ? std::min<size_t>(2, n) : k - 1;
+      size_t off = g.below(n - k3 + 1);
+      for (size_t i = 0; i < k3; ++i) sets[2].push_back(off + i);
+      sets[3] = sets[0];
+      vector<double> cur = start;
+      for (size_t r = 0; r < 4 && !dead; ++r)
+      {
+        act = sets[r];
+        // the user moves on from the reported point - pulled back inside the constraints if the previous run
+        // (policy ignore) left them: a start must be admissible
+        for (size_t i = 0; i < n; ++i)
+          if (!bx.feasible(i, cur[i]))
+          {
+            double d = 1e-6 * (bx.hi[i] - bx.lo[i]);
+            cur[i] = (cur[i] != cur[i] || cur[i] < bx.lo[i] + d) ? bx.lo[i] + d : bx.hi[i] - d;
+          }
+        f->place(cur);
+        if (!doInit(cur)) break;
+        if (!doOptimize(true, cur)) break;
+        cur = reported();
+      }
+      f->record = false;
+      events += sc.emitAll();
+      evalsTotal += sc.totalEvals;
+      return;
+    }
     bool ok = doInit(start);
     if (ok)
     {
@@ -937,6 +1001,39 @@ public:
           doOptimize(false, start);
         }
         break;
+      case 7: // optimize, replace the constraints (same names), init again inside the new box, optimize
+        if (rebox)
+        {
+          if (!doOptimize(true, start)) break;
+          vector<double> s2(n);
+          bool inact2 = true;
+          Box nb = bx;
+          for (size_t i = 0; i < n; ++i)
+          {
+            s2[i] = f->m[i] + (g.coin() ? 1. : -1.) * logUniform(g, 0.01, 10.);
+            nb.has[i] = g.chance(3, 4);
+            double a = std::min(s2[i], f->m[i]), b = std::max(s2[i], f->m[i]);
+            nb.lo[i] = a - logUniform(g, 1e-3, 30.);
+            nb.hi[i] = b + logUniform(g, 1e-3, 30.);
+            nb.il[i] = g.chance(2, 3);
+            nb.iu[i] = g.chance(2, 3);
+          }
+          Arr jb;
+          for (size_t i = 0; i < n; ++i) jb.add(Arr().add(nb.has[i] != 0).add(nb.il[i] != 0).add(nb.iu[i] != 0));
+          sc.add(Ev("Rebox").raw("box", jb.j().dump()).b("inact", inact2)); // evaluations so far were coded against the old box
+          bx = nb;
+          bpp::ParameterList pl2;
+          for (size_t i = 0; i < n; ++i)
+          {
+            shared_ptr<bpp::ConstraintInterface> c;
+            if (bx.has[i]) c = std::make_shared<bpp::IntervalConstraint>(bx.lo[i], bx.hi[i], bx.il[i] != 0, bx.iu[i] != 0);
+            pl2.addParameter(bpp::Parameter("x" + std::to_string(i), s2[i], c));
+          }
+          pl = pl2;
+          if (doInit(s2)) doOptimize(true, s2);
+        }
+        else doOptimize(true, start);
+        break;
       default:
         doOptimize(true, start);
       }
@@ -975,7 +1072,7 @@ public:
     {
       Obj o;
       o.kv("e", "Reset").kv("opt", inward ? "BracketInward" : "BracketOutward").kv("dim", 1).kv("kind", KINDS[kind]);
-      o.kv("pol", constrained ? "auto" : "ignore").kv("max", 0).kv("tk", 0).kv("inact", true).kv("sc", id);
+      o.kv("pol", constrained ? "auto" : "ignore").kv("max", 0).kv("tk", 0).kv("inact", true).kv("sc", id).kv("full", true);
       o.kv("box", Arr().add(Arr().add(bx.has[0] != 0).add(bx.il[0] != 0).add(bx.iu[0] != 0)));
       tracer().emit(o);
       tracer().flush();
